@@ -208,6 +208,8 @@ class Check(PropertyCheck):
         obs["pretty_url_hex"] = hx(rq.pretty_url.encode("utf-8", "surrogateescape"))
         obs["pretty_host_hex"] = hx(rq.pretty_host.encode("utf-8", "surrogateescape"))
         obs["orig_url_hex"] = hx(f.request.pretty_url.encode("utf-8", "surrogateescape"))
+        # the request's method as mitmproxy's data model defines it (Request.method upper-cases the wire bytes)
+        obs["api_method_hex"] = hx(f.request.method.encode("utf-8", "surrogateescape"))
         clean = export.cleanup_request(f)
         obs["clean_headers"] = [[hx(k), hx(v)] for k, v in clean.headers.fields]
         obs["clean_content_hex"] = None if clean.raw_content is None else hx(clean.raw_content)
@@ -277,7 +279,7 @@ class Check(PropertyCheck):
 
     def oracle(self, case, obs):
         fails = []
-        method = unhx(case["method_hex"])
+        method = unhx(obs["api_method_hex"])
         url = unhx(obs["orig_url_hex"])
         exp_h = self._expected_headers(case)
         has_content = bool(obs["clean_content_hex"] and unhx(obs["clean_content_hex"]))
@@ -402,7 +404,7 @@ class Check(PropertyCheck):
                 body = "bin"
         clean = export.cleanup_request(f)
         e = lambda x: hx(x.encode("utf-8", "surrogateescape"))
-        return {"body": body, "url": e(rq.pretty_url), "pretty_host": e(rq.pretty_host), "host": e(clean.host),
+        return {"body": body, "method": e(rq.method), "url": e(rq.pretty_url), "pretty_host": e(rq.pretty_host), "host": e(clean.host),
                 "hdrs": ["%s:%s" % (hx(k), hx(v)) for k, v in clean.headers.fields],
                 "line": [hx(clean.data.method), hx(clean.data.scheme), hx(clean.data.authority), hx(clean.data.path), hx(clean.data.http_version)],
                 "content": None if clean.raw_content is None else hx(clean.raw_content),
@@ -410,7 +412,7 @@ class Check(PropertyCheck):
 
     def model_lines(self, case):
         a = self._answers(case)
-        m = case["method_hex"]
+        m = a["method"]
         hd = (" " + " ".join(a["hdrs"])) if a["hdrs"] else ""
         peer = "none" if not case["peer"] else hx(case["peer"].encode())
         lines = [f"curl {case['preserve']} {peer} {m} {a['host']} {a['pretty_host']} {case['port']} {a['url']} {a['body']}{hd}",
